@@ -4,6 +4,7 @@ import (
 	"container/heap"
 	"context"
 	"fmt"
+	"github.com/btcsuite/btcd/chainhash/v2"
 	"net"
 	"os"
 	"path/filepath"
@@ -108,9 +109,11 @@ type World struct {
 	nParks      int
 	onParked    func(site string)
 	dbArm       func(kind string)
-	softAct     func() // see yieldHook, site cfhandler.beforeWait
-	softNth     int
-	plainDB     bool // hand the client the database itself, not hookDB
+	// cfCommits: stop blocks of the filter-header batches committed, in order.
+	cfCommits []chainhash.Hash
+	softAct   func() // see yieldHook, site cfhandler.beforeWait
+	softNth   int
+	plainDB   bool // hand the client the database itself, not hookDB
 	// parkedReturn: runFor may end (deadline or predicate) while a client
 	// goroutine is parked.
 	parkedReturn bool
@@ -182,6 +185,17 @@ func (w *World) yieldHook(site string) {
 			}
 		}
 		return
+	}
+	if site == "cfheaders.afterStoreWrite" && w.cs != nil && !w.freeRun {
+		// Which batch was just committed: the block at the filter store's
+		// new tip is the stop block of the answer it was taken from.
+		if _, h, err := w.cs.RegFilterHeaders.ChainTip(); err == nil {
+			if hdr, err := w.cs.BlockHeaders.FetchHeaderByHeight(h); err == nil {
+				w.ymu.Lock()
+				w.cfCommits = append(w.cfCommits, hdr.BlockHash())
+				w.ymu.Unlock()
+			}
+		}
 	}
 	w.ymu.Lock()
 	w.yieldSeen[site]++
